@@ -512,7 +512,7 @@ func (e *Engine) verifyFunc(t *Target) (res *FuncResult) {
 						c.unsupported = append(c.unsupported, "bad assigns clause")
 						continue
 					}
-					c.frameExcept = append(c.frameExcept, esc.eval(ex))
+					c.frameExcept = append(c.frameExcept, esc.evalTarget(ex))
 				}
 			}
 		}
